@@ -13,7 +13,6 @@ import (
 	"fmt"
 	"math"
 	"runtime/debug"
-	"sync"
 
 	"verif/guardmem"
 	"verif/mc"
@@ -53,19 +52,8 @@ func init() {
 func dctCoef(n, p, k int) float64 { return cosTab[n][((2*p+1)*k)%(4*n)] }
 
 // worst observed |kernel - DCT-II| / L1 per kernel (evidence only)
-var (
-	c18WorstMu sync.Mutex
-	c18Worst   = map[string]float64{}
-	c18WorstAt = map[string]string{}
-)
-
 func c18Track(name string, ratio float64, at func() string) {
-	c18WorstMu.Lock()
-	if ratio > c18Worst[name] {
-		c18Worst[name] = ratio
-		c18WorstAt[name] = at()
-	}
-	c18WorstMu.Unlock()
+	mc.Gauge(name, ratio, at)
 }
 
 // c18Judge compares one coefficient with the DCT-II value.  Two bands keep a
@@ -732,21 +720,21 @@ func init() {
 				s64, s256, pairs = 3, 2, true
 			}
 			return []mc.Space{
-				{Name: "dct64-sparse", H: c18Sparse1(0, s64), NoLevels: true, SplitDepth: 1,
+				{Name: "dct64-sparse", H: c18Sparse1(0, s64), NoLevels: true, SplitDepth: 1, Isolate: true,
 					Rule: fmt.Sprintf("every 64-vector with support <= %d over the 16-value menu {+-1e-6,+-1e-3,+-0.5,+-1,+-3,+-255,+-1e3,+-1e6}; assembly vs portable bitwise, portable vs float64 DCT-II within 1e-5*L1; guard pages at both flush positions, plus bases that are only 4-, 8- and 16-byte aligned", s64)},
-				{Name: "dct256-sparse", H: c18Sparse1(1, s256), NoLevels: true, SplitDepth: 1,
+				{Name: "dct256-sparse", H: c18Sparse1(1, s256), NoLevels: true, SplitDepth: 1, Isolate: true,
 					Rule: fmt.Sprintf("every 256-vector with support <= %d over the same menu", s256)},
-				{Name: "dct2d64-sparse", H: c18Sparse2D(pairs), NoLevels: true, SplitDepth: 1,
+				{Name: "dct2d64-sparse", H: c18Sparse2D(pairs), NoLevels: true, SplitDepth: 1, Isolate: true,
 					Rule: "every 64x64 input with one non-zero entry (4096 positions x 16 values)" + map[bool]string{true: "; and every pair in one row, one column or mirrored, over a 6-value menu squared", false: ""}[pairs] + "; assembly 2-D kernel vs the library's portable 2-D path bitwise, portable vs 2-D DCT-II within 2e-5*L1"},
-				{Name: "float64-dct64-sparse", H: c18Sparse64(0, 2), NoLevels: true, SplitDepth: 1,
+				{Name: "float64-dct64-sparse", H: c18Sparse64(0, 2), NoLevels: true, SplitDepth: 1, Isolate: true,
 					Rule: "float64 64-point kernel: support <= 2 vs DCT-II within 1e-12*L1"},
-				{Name: "float64-dct256-sparse", H: c18Sparse64(1, s256), NoLevels: true, SplitDepth: 1,
+				{Name: "float64-dct256-sparse", H: c18Sparse64(1, s256), NoLevels: true, SplitDepth: 1, Isolate: true,
 					Rule: fmt.Sprintf("float64 256-point kernel: support <= %d vs DCT-II within 1e-12*L1", s256)},
-				{Name: "bottom-of-range", H: c18TinyH, NoLevels: true, SplitDepth: 1,
+				{Name: "bottom-of-range", H: c18TinyH, NoLevels: true, SplitDepth: 1, Isolate: true,
 					Rule: "assembly vs portable bitwise on vectors with one or two entries from {+-1e-30, +-min normal, subnormals down to 1.4e-45, 1, -255} (all second positions x 64 first positions) for the 64- and 256-point kernels, same-row/same-column pairs and a dense scaled noise image for the 64x64 kernel: gradual underflow must be identical"},
-				{Name: "dense-edge-vectors", H: c18Dense, NoLevels: true, SplitDepth: 1,
+				{Name: "dense-edge-vectors", H: c18Dense, NoLevels: true, SplitDepth: 1, Isolate: true,
 					Rule: "constant, alternating, ramp vectors for each menu value, every DCT basis vector at two amplitudes, 64 fixed LCG vectors over 13 decades; 4 kernels x 2 flush positions"},
-				{Name: "exported-2d", H: c18Exported(map[bool]int{true: 1, false: 8}[tier == "thorough"]), NoLevels: true, SplitDepth: 1,
+				{Name: "exported-2d", H: c18Exported(map[bool]int{true: 1, false: 8}[tier == "thorough"]), NoLevels: true, SplitDepth: 1, Isolate: true,
 					Rule: "transforms.DCT2DHash64/256 and transforms32.DCT2DHash256 on unit impulses (two amplitudes; 64x64: every position; 256x256: every position in thorough, every 8th column per row with a row-dependent phase in quick) vs the 2-D DCT-II low block"},
 			}
 		},
@@ -758,8 +746,8 @@ func init() {
 		Extra: func(cov map[string]interface{}) {
 			cov["asm_available"] = asmAvailable
 			w := map[string]string{}
-			for k, v := range c18Worst {
-				w[k] = fmt.Sprintf("%.3f x bound at %s", v, c18WorstAt[k])
+			for k, g := range mc.Gauges() {
+				w[k] = fmt.Sprintf("%.3f x bound at %s", g.V, g.At)
 			}
 			cov["worst_error_relative_to_bound"] = w
 		},
